@@ -3,6 +3,7 @@ integer arithmetic reduced mod 2^bits of the result (search)."""
 import itertools
 import json
 import re
+import concurrent.futures
 import multiprocessing
 import threading
 
@@ -882,9 +883,10 @@ def value_vectors(ctx, case, idx, tier):
     rng = ctx.sub_rng('values', idx, case['op'])
     if total <= limit:
         allv = [tuple(t) for t in itertools.product(*[range(1 << w) for w in allw])]
-        if tier == 'quick' and case['tag'] != 'tiny' and len(allv) > 24:
+        cap_ = 6 if case['tag'] == 'sweep' else 24
+        if tier == 'quick' and case['tag'] != 'tiny' and len(allv) > cap_:
             # keep the quick tier's size independent of the widths the seed happened to draw
-            return [allv[0], allv[-1]] + rng.sample(allv[1:-1], 22), False
+            return [allv[0], allv[-1]] + rng.sample(allv[1:-1], cap_ - 2), False
         return allv, True
     n = 6 if tier == 'quick' else 12
     if case['tag'] == 'sweep':
@@ -969,10 +971,21 @@ def build_design(batch):
             info['out'] = out.name
         except pyrtl.PyrtlError as e:
             info.update(kind='error', err='PyrtlError: ' + clean(str(e)))
-        except (IndexError, ZeroDivisionError, TypeError, ValueError) as e:
+        except Exception as e:      # any other exception is an outcome of this case, never the end of the run
             info.update(kind='error', err='%s: %s' % (type(e).__name__, clean(str(e))))
         infos.append(info)
     return infos
+
+
+def pmap(fn, jobs, workers=8, chunksize=1):
+    """map over worker processes; a dead worker (OOM on a loaded machine) raises BrokenProcessPool instead of
+    hanging, and the jobs are then run in this process"""
+    try:
+        with concurrent.futures.ProcessPoolExecutor(max_workers=workers,
+                                                    mp_context=multiprocessing.get_context('fork')) as ex:
+            return list(ex.map(fn, jobs, chunksize=chunksize))
+    except Exception:
+        return [fn(j) for j in jobs]
 
 
 def run_batch_job(job):
@@ -980,6 +993,23 @@ def run_batch_job(job):
 
 
 def run_batch(batch, vec_lists):
+    try:
+        return run_batch_once(batch, vec_lists)
+    except Exception as e:
+        if len(batch) == 1:
+            # the design of this single case cannot be simulated: an outcome of the case, not of the run
+            info = {'ins': [], 'sc': None, 'kind': 'error',
+                    'err': 'design could not be simulated: %s: %s' % (type(e).__name__, clean(str(e)))}
+            return [info], [[None] * len(vec_lists[0])]
+        infos, outs = [], []
+        for case, vl in zip(batch, vec_lists):
+            i1, o1 = run_batch([case], [vl])
+            infos.extend(i1)
+            outs.extend(o1)
+        return infos, outs
+
+
+def run_batch_once(batch, vec_lists):
     infos = build_design(batch)
     block = pyrtl.working_block()
     nsteps = max(len(v) for v in vec_lists)
@@ -1055,8 +1085,7 @@ def run(ctx):
     if group:
         groups.append(group)
     jobs = [([cases[i] for i in grp], [vecs[i] for i in grp]) for grp in groups]
-    with multiprocessing.get_context('fork').Pool(8) as pool:
-        done = pool.map(run_batch_job, jobs, chunksize=1)
+    done = pmap(run_batch_job, jobs)
     for grp, (infos, outs) in zip(groups, done):
         for i, info, o in zip(grp, infos, outs):
             results[i] = (info, o)
@@ -1068,7 +1097,11 @@ def run(ctx):
     # ---- compare
     for idx, case in enumerate(cases):
         info, outs = results[idx]
-        judge(ctx, idx, case, vecs[idx], info, outs, model[idx] if model is not None else None)
+        try:
+            judge(ctx, idx, case, vecs[idx], info, outs, model[idx] if model is not None else None)
+        except Exception as e:      # a harness fault on one case is reported for that case; the run goes on
+            ctx.model_mismatch('harness fault while judging a case: %s: %s' % (type(e).__name__, clean(str(e))),
+                               case_json(case))
 
 
 def split_vec(case, vec):
@@ -1619,12 +1652,17 @@ def seq_run_real(job):
         snaps.append(snap)
     values = []
     if nouts:
-        block = pyrtl.working_block()
-        outs = [w for w in block.wirevector_subset(pyrtl.Output)]
-        sim = pyrtl.Simulation(tracer=pyrtl.SimulationTrace(wires_to_track=outs, block=block), block=block)
-        for vec in vecs:
-            sim.step(dict(zip(names, vec)))
-            values.append({w.name: sim.inspect(w.name) for w in outs})
+        try:
+            block = pyrtl.working_block()
+            outs = sorted(block.wirevector_subset(pyrtl.Output), key=lambda w: w.name)
+            sim = pyrtl.Simulation(tracer=pyrtl.SimulationTrace(wires_to_track=outs, block=block), block=block)
+            for vec in vecs:
+                sim.step(dict(zip(names, vec)))
+                values.append({w.name: sim.inspect(w.name) for w in outs})
+        except Exception as e:
+            error = (len(snaps) - 1 if snaps else 0,
+                     'the design built by this history cannot be simulated: %s: %s' % (type(e).__name__, clean(str(e))))
+            snaps = snaps[:error[0]]
     pyrtl.reset_working_block()
     return snaps, values, error
 
@@ -1749,70 +1787,73 @@ def run_sequences(ctx):
             box['error'] = str(e)[-800:]
     th = threading.Thread(target=eval_model)
     th.start()
-    with multiprocessing.get_context('fork').Pool(8) as pool:
-        reals = pool.map(seq_run_real, list(zip(seqs, vecs)), chunksize=2)
+    reals = pmap(seq_run_real, list(zip(seqs, vecs)), chunksize=2)
     th.join()
     model = box.get('model')
     if model is None:
         ctx.model_mismatch('Lib/Matrix.v (prun) could not be evaluated: %s' % box.get('error'), {})
     reported = {}
     for n, (seq, vs, real) in enumerate(zip(seqs, vecs, reals)):
-        ctx.count('ops', 'sequence')
-        ctx.count('sequence_length', len(seq['steps']))
-        ctx.count('sequence_observe', seq['observe'])
-        for st in seq['steps']:
-            ctx.count('sequence_steps', st['op'])
-        pairs = set()
-        for x, y in zip(seq['steps'], seq['steps'][1:]):
-            pairs.add((x['op'], y['op']))
-        for pr in pairs:
-            ctx.count('sequence_adjacent_pairs_distinct', 'any')
-        for vi, vec in enumerate(vs):
-            ctx.case(('sequence', repr(seq_json(seq)), vec), nontrivial=any(vec),
-                     sample=(dict(seq_json(seq), wire_inputs=list(vec)) if n % 60 == 0 and vi == 0 else None))
-        fail = seq_first_failure(seq, vs, real)
-        if fail is not None:
-            sig = 'sequence:%s:%s' % (fail['kind'], fail['op'])
-            if reported.get(sig, 0) < 2 and len(reported) < 8:
-                reported[sig] = reported.get(sig, 0) + 1
-                sseq, sfail = seq_shrink(seq, vs, fail)
-                sig = 'sequence:%s:%s' % (sfail['kind'], sfail['op'])
-                ctx.spec_violation(sig, 'Matrix history: ' + sfail['what'],
-                                   dict(sequence=seq_json(sseq), wire_inputs=sfail['values'], first_failure=sfail,
-                                        seed=ctx.seed, tier=ctx.tier, original_sequence=seq_json(seq)))
-        # tie with the Coq pool model
-        if model is None:
-            continue
-        snaps, values, error = real
-        inv = {}
-        for k, pidx in poss[n].items():
-            inv[pidx] = k
-        for vi, vec in enumerate(vs):
-            mruns = model[n][vi]
-            bad = None
-            if len(mruns) != len(snaps) and not (error and len(mruns) >= len(snaps)):
-                bad = 'model runs %d steps, implementation %d' % (len(mruns), len(snaps))
-            for t in range(min(len(mruns), len(snaps))):
+        try:
+            ctx.count('ops', 'sequence')
+            ctx.count('sequence_length', len(seq['steps']))
+            ctx.count('sequence_observe', seq['observe'])
+            for st in seq['steps']:
+                ctx.count('sequence_steps', st['op'])
+            pairs = set()
+            for x, y in zip(seq['steps'], seq['steps'][1:]):
+                pairs.add((x['op'], y['op']))
+            for pr in pairs:
+                ctx.count('sequence_adjacent_pairs_distinct', 'any')
+            for vi, vec in enumerate(vs):
+                ctx.case(('sequence', repr(seq_json(seq)), vec), nontrivial=any(vec),
+                         sample=(dict(seq_json(seq), wire_inputs=list(vec)) if n % 60 == 0 and vi == 0 else None))
+            fail = seq_first_failure(seq, vs, real)
+            if fail is not None:
+                sig = 'sequence:%s:%s' % (fail['kind'], fail['op'])
+                if reported.get(sig, 0) < 2 and len(reported) < 8:
+                    reported[sig] = reported.get(sig, 0) + 1
+                    sseq, sfail = seq_shrink(seq, vs, fail)
+                    sig = 'sequence:%s:%s' % (sfail['kind'], sfail['op'])
+                    ctx.spec_violation(sig, 'Matrix history: ' + sfail['what'],
+                                       dict(sequence=seq_json(sseq), wire_inputs=sfail['values'], first_failure=sfail,
+                                            seed=ctx.seed, tier=ctx.tier, original_sequence=seq_json(seq)))
+            # tie with the Coq pool model
+            if model is None:
+                continue
+            snaps, values, error = real
+            inv = {}
+            for k, pidx in poss[n].items():
+                inv[pidx] = k
+            for vi, vec in enumerate(vs):
+                mruns = model[n][vi]
+                bad = None
+                if len(mruns) != len(snaps) and not (error and len(mruns) >= len(snaps)):
+                    bad = 'model runs %d steps, implementation %d' % (len(mruns), len(snaps))
+                for t in range(min(len(mruns), len(snaps))):
+                    if bad:
+                        break
+                    got = {k: (attrs, oname) for (k, attrs, oname) in snaps[t]}
+                    if len(mruns[t]) != len(got):
+                        bad = 'pool size after step %d: model %d, implementation %d' % (t, len(mruns[t]), len(got))
+                        break
+                    for pidx, (mbits, mdat, mwv, mmaxb) in enumerate(mruns[t]):
+                        attrs, oname = got[inv[pidx]]
+                        if (attrs['bits'], attrs['max_bits'], attrs['rows']) != (mbits, mmaxb, len(mdat)):
+                            bad = 'step %d object %s: attributes %s vs model bits=%d maxb=%d rows=%d' % (
+                                t, inv[pidx], attrs, mbits, mmaxb, len(mdat))
+                            break
+                        if oname is not None and values[vi][oname] != mwv:
+                            bad = 'step %d (%s) object %s: wire %d vs model %d' % (
+                                t, seq['steps'][t]['op'], inv[pidx], values[vi][oname], mwv)
+                            break
                 if bad:
+                    ctx.model_mismatch('Matrix history: implementation != Lib/Matrix.v prun: ' + bad,
+                                       dict(sequence=seq_json(seq), wire_inputs=list(vec)))
                     break
-                got = {k: (attrs, oname) for (k, attrs, oname) in snaps[t]}
-                if len(mruns[t]) != len(got):
-                    bad = 'pool size after step %d: model %d, implementation %d' % (t, len(mruns[t]), len(got))
-                    break
-                for pidx, (mbits, mdat, mwv, mmaxb) in enumerate(mruns[t]):
-                    attrs, oname = got[inv[pidx]]
-                    if (attrs['bits'], attrs['max_bits'], attrs['rows']) != (mbits, mmaxb, len(mdat)):
-                        bad = 'step %d object %s: attributes %s vs model bits=%d maxb=%d rows=%d' % (
-                            t, inv[pidx], attrs, mbits, mmaxb, len(mdat))
-                        break
-                    if oname is not None and values[vi][oname] != mwv:
-                        bad = 'step %d (%s) object %s: wire %d vs model %d' % (
-                            t, seq['steps'][t]['op'], inv[pidx], values[vi][oname], mwv)
-                        break
-            if bad:
-                ctx.model_mismatch('Matrix history: implementation != Lib/Matrix.v prun: ' + bad,
-                                   dict(sequence=seq_json(seq), wire_inputs=list(vec)))
-                break
+        except Exception as e:      # a harness fault on one history is reported for it; the run goes on
+            ctx.model_mismatch('harness fault while judging a history: %s: %s' % (type(e).__name__, clean(str(e))),
+                               dict(sequence=seq_json(seq)))
 
 
 def replay(ctx, data):
